@@ -709,7 +709,7 @@ func (g *gen) nilOperand(fx *fctx, pre *[]*Stmt) *Expr {
 	}
 }
 
-var faultKinds = []string{"index", "index", "arith", "arith", "call", "call", "cmp", "concat", "error", "error", "error2", "store", "forcheck", "gencall", "method", "badarg"}
+var faultKinds = []string{"index", "index", "arith", "arith", "call", "call", "cmp", "concat", "error", "error", "error2", "store", "forcheck", "gencall", "method", "badarg", "gogo", "gogo"}
 
 func (g *gen) faultAction(fx *fctx, kind string, scen int, depth int) []*Stmt {
 	var pre []*Stmt
@@ -721,7 +721,64 @@ func (g *gen) faultAction(fx *fctx, kind string, scen int, depth int) []*Stmt {
 		kind, what = "error", "error"
 	}
 	N := func() *Expr { return g.nilOperand(fx, &pre) }
+	if kind == "gogo" && g.r.Chance(35) {
+		// the same inside a coroutine: the message comes back through resume and is re-raised as it is
+		f := &Func{ID: g.fn()}
+		cx := &fctx{fn: f, parent: fx, callerNLoc: -1}
+		cx.push()
+		f.Body = append(g.faultAction(cx, "gogo/co", scen, 2), &Stmt{K: "return", Exprs: []*Expr{num(1)}})
+		co := g.fresh("co")
+		s1 := &Stmt{K: "local", Names: []string{co}, Vals: []*int{nil},
+			Exprs: []*Expr{call(index(name("coroutine"), "create"), &Expr{K: "func", Fn: f})}}
+		fx.declare(Binding{co, nil})
+		s2 := &Stmt{K: "call", Exprs: []*Expr{call(name("error"),
+			call(name("select"), num(2), call(index(name("coroutine"), "resume"), name(co))), num(0))}}
+		g.size += 2
+		return []*Stmt{s1, s2}
+	}
 	switch kind {
+	case "gogo", "gogo/co":
+		// a run-time error raised by a Go function whose caller is a Go function too (two or more
+		// Go frames above the Lua frame): the position is that of the Lua statement being executed
+		isCall = true
+		bad := func() []*Expr { // a library/host function and arguments it rejects
+			switch g.r.Intn(5) {
+			case 0:
+				return []*Expr{index(name("string"), "rep"), N()}
+			case 1:
+				return []*Expr{name("ipairs")}
+			case 2:
+				return []*Expr{index(name("math"), "floor"), g.strLit()}
+			case 3:
+				return []*Expr{name("HARG"), num(1)}
+			default:
+				return []*Expr{name("HRAISE")}
+			}
+		}
+		rethrow := func(k int, x *Expr) *Expr { return call(name("error"), call(name("select"), num(k), x), num(0)) }
+		hostf := func() *Expr { return name([]string{"HRAISE", "HARG"}[g.r.Intn(2)]) }
+		switch g.r.Intn(8) {
+		case 0:
+			node = call(name("pcall"), bad()...)
+			place = rethrow(2, node)
+		case 1:
+			node = call(name("pcall"), append([]*Expr{name("pcall")}, bad()...)...)
+			place = rethrow(3, node)
+		case 2:
+			node = call(name("xpcall"), bad()[0], name("IDH"))
+			place = rethrow(2, node)
+		case 3:
+			node = call(index(name("string"), "gsub"), g.strLit(), str("\".\""), hostf())
+		case 4:
+			node = method(paren(str("\"abc\"")), "gsub", str("\"%w\""), hostf())
+		case 5:
+			t := &Expr{K: "table", Args: []*Expr{num(3), num(1), num(2)}, Keys: []string{"", "", ""}}
+			node = call(index(name("table"), "sort"), t, hostf())
+		case 6:
+			node = call(name("HCALL"), bad()...)
+		default:
+			node = call(name("HCALL"), append([]*Expr{name("HCALL")}, bad()...)...)
+		}
 	case "index":
 		switch g.r.Intn(4) {
 		case 0:
